@@ -124,7 +124,7 @@ class HostRig:
     def _feed(self, data: bytes):
         try:
             self.p.data_received(data)
-        except Exception as e:  # an exception escaping the receive callback is itself observable
+        except BaseException as e:  # an exception escaping the receive callback is itself observable
             self.raised.append(type(e).__name__)
             self.out.append({"o": "raised", "exc": type(e).__name__})
 
